@@ -17,6 +17,13 @@ fn names_field(names: &[String]) -> String {
 fn parse_names(x: &str) -> Vec<String> {
     if x == "~" { vec![] } else { x.split(',').map(dec_raw).collect() }
 }
+/// `BddVariableSet::new` under `catch`: legal names must be accepted; a panic is the observation `newpanic`
+fn var_set_or(names: &[String], key: &str, a: &[String], arity: usize, out: &mut Out) -> Option<BddVariableSet> {
+    match catch(|| var_set(names)) {
+        Some(v) => Some(v),
+        None => { let mut obs = vec![s("newpanic")]; while obs.len() < arity { obs.push(s("-")); } out.case(key, a, &obs); None }
+    }
+}
 fn var_set(names: &[String]) -> BddVariableSet {
     let refs: Vec<&str> = names.iter().map(|x| x.as_str()).collect();
     BddVariableSet::new(&refs)
@@ -188,7 +195,7 @@ pub fn run(key: &str, a: &[String], out: &mut Out) {
     match key {
         // names tree => Bdd | none | panic        (safe_eval_expression)
         "C15.eval" => {
-            let vars = var_set(&parse_names(&a[0]));
+            let vars = match var_set_or(&parse_names(&a[0]), key, a, 2, out) { Some(v) => v, None => return };
             let e = unsexp(&a[1]);
             let r = catch(|| vars.safe_eval_expression(&e));
             // eval_expression = unwrap: panics exactly when safe_eval_expression is None
@@ -197,14 +204,14 @@ pub fn run(key: &str, a: &[String], out: &mut Out) {
         }
         // names string => Bdd | panic             (eval_expression_string)
         "C15.evals" => {
-            let vars = var_set(&parse_names(&a[0]));
+            let vars = match var_set_or(&parse_names(&a[0]), key, a, 1, out) { Some(v) => v, None => return };
             let x = dec(&a[1]);
             let r = catch(|| vars.eval_expression_string(&x));
             out.case(key, a, &[fmt_res_bdd(&r)]);
         }
         // names bdd => export, eval(export), eval(parse(print(export)))
         "C15.export" | "C15.exportbad" => {
-            let vars = var_set(&parse_names(&a[0]));
+            let vars = match var_set_or(&parse_names(&a[0]), key, a, 3, out) { Some(v) => v, None => return };
             let b = Bdd::from_string(&a[1]);
             match catch(|| b.to_boolean_expression(&vars)) {
                 None => out.case(key, a, &[s("panic"), s("-"), s("-")]),
@@ -384,6 +391,24 @@ pub fn gen(tier: Tier, rng: &mut Rng64, out: &mut Out) {
             let v = noncanon_variant(rng, &b);
             run("C15.export", &[names_field(&anon(n)), fmt_bdd(&v)], out);
         }
+    }
+    // --- name characters chosen by their LOW BYTE (reserved characters / whitespace bytes shifted into higher planes)
+    // in first, middle and last position of real variable names: eval, eval of text, export round trips
+    let lbc = low_byte_chars();
+    for (ci, c) in lbc.iter().enumerate() {
+        let names = vec![format!("{}ab", c), format!("a{}b", c), format!("ab{}", c)];
+        let nf = names_field(&names);
+        for pat in ["{1}", "{0}&{1}|!{2}", "{0}=>{1}<=>{2}", "({2})^{0}", "{1}?{0}:{2}", "!{2}"] {
+            let text = pat.replace("{0}", &names[0]).replace("{1}", &names[1]).replace("{2}", &names[2]);
+            run("C15.evals", &[nf.clone(), enc(&text)], out);
+        }
+        run("C15.eval", &[nf.clone(), sexp(&Cond(Box::new(Variable(names[1].clone())), Box::new(Variable(names[0].clone())), Box::new(Not(Box::new(Variable(names[2].clone()))))))], out);
+        // every function over these three variables for a few characters, eight spread functions for the others
+        let all = thorough || ci % 16 == 0;
+        for t in 0..256u64 {
+            if all || (t * 37 + ci as u64) % 32 == 0 { run("C15.export", &[nf.clone(), fmt_bdd(&bdd_of_tt(3, &tt_from_index(3, t)))], out); }
+        }
+        run("C15.export", &[names_field(&[format!("{}", c)]), fmt_bdd(&bdd_of_tt(1, &tt_from_index(1, 2)))], out);
     }
     // --- evaluation through Bdds with more than 2^16 nodes (pointer values beyond 16 bits in the memo keys)
     let mut big: Vec<(&str, usize)> = vec![("pairs", 17), ("cnf", 17), ("muxsop", 16), ("pairs", 16), ("pairs", 10), ("equal", 8), ("muxcond", 8)];
